@@ -54,10 +54,9 @@ def read_decimal(data, writer_schema=None, reader_schema=None):
 
     unscaled_datum = int.from_bytes(data, byteorder="big", signed=True)
 
-    decimal_context.prec = precision
-    return decimal_context.create_decimal(unscaled_datum).scaleb(
-        -scale, decimal_context
-    )
+    # Use a context of our own: the module-level one is shared by every thread
+    context = Context(prec=precision)
+    return context.create_decimal(unscaled_datum).scaleb(-scale, context)
 
 
 def read_time_millis(data, writer_schema=None, reader_schema=None):
